@@ -1045,7 +1045,7 @@ theorem gpx_node (s : TokStream) (c ap : Bool) : ∀ (t : Node), GPX s c ap t
       · have hb' : (t.type == TokType.LBRACKET) = false := by simpa using hb
         rw [hb'] at h
         simp only [Bool.false_eq_true, if_false, Bool.and_eq_true, beq_iff_eq, fragO] at h
-        exact gp_index_dot h.2.1.1 (hl.1 h.1) (hi.1 h.2.2) h.1 h.2.2)
+        exact gp_index_dot h.2.1 (hl.1 h.1) (hi.1 h.2.2) h.1 h.2.2)
   | .func t name params none v isL => GPX.of_false (fun _ _ _ _ e => nomatch e) (fun _ _ e => nomatch e) (fun _ _ e => nomatch e) (by
       cases isL <;> simp [fragN, fragB])
   | .func t name params (some l) v false => GPX.of_gp (fun _ _ _ _ e => nomatch e) (fun _ _ e => nomatch e) (fun _ _ e => nomatch e) (fun h => by
